@@ -496,8 +496,11 @@ pub fn pool_job(seed: u64, k: usize, c: &Corpus) -> Job {
             let (ii, root) = &c.roots[ridx];
             if let Some(t) = c.images[*ii].text_of(root) {
                 let m = mutate::draw(&mut rng, t, &c.texts);
-                j.disk.add_file(root, mutate::apply(t, &m));
-                j.name = format!("mutant:{}/{}:{:?}", c.images[*ii].label, root, m);
+                let candidate = mutate::apply(t, &m);
+                if !mutate::magnitude_risky(t, &candidate) {
+                    j.disk.add_file(root, candidate);
+                    j.name = format!("mutant:{}/{}:{:?}", c.images[*ii].label, root, m);
+                }
             }
         }
         j
